@@ -170,3 +170,23 @@ Definition check_dump := mismatches dump_ok.
 (* debugging aid: what the model predicts *)
 Definition predict (gz : graph_z) : option (list obs_z) :=
   match split (mk_graph gz) with Some r => Some (model_obs r) | None => None end.
+
+(* ---- CSS chunks: (files as (is CSS, record targets, stub's CSS index or -1), entry points,
+        the linker's CSS chunks in chunk order as (entry file, files in order),
+        the emitted .css files as (entry file, files in text order)) ---- *)
+From V Require Import C10.Css.
+Definition cfile_z := (bool * list Z * Z)%type.
+Definition mk_cfile (f : cfile_z) : cfile :=
+  let '(css, recs, stub) := f in
+  mkCFile css (map Z.to_nat recs) (if stub <? 0 then None else Some (Z.to_nat stub)).
+Definition zchunk_eqb (a b : Z * list Z) : bool := (fst a =? fst b) && zlist_eqb (snd a) (snd b).
+Definition css_ok (c : list cfile_z * list Z * list (Z * list Z) * list (Z * list Z)) : bool :=
+  let '(fs, ents, dump, text) := c in
+  let g := map mk_cfile fs in
+  let m := map (fun c => (Z.of_nat (snd (fst c)), map Z.of_nat (snd c))) (css_chunks g (map Z.to_nat ents)) in
+  list_eqb zchunk_eqb m dump
+  && (length m =? length text)%nat
+  && forallb (fun t => match find (fun x => fst x =? fst t) m with
+                       | Some x => zlist_eqb (snd x) (snd t)
+                       | None => false end) text.
+Definition check_css := mismatches css_ok.
